@@ -20,7 +20,7 @@ var propInfo = map[string]propMeta{
 	"C04": {"fault_enumeration", "programs mixing sync/non-sync writes, batches, transactions, CompactRange with 1..3 crash points per run placed at the k-th storage operation of a chosen kind/file type (before or after its effect, or inside a write), each with a seeded durable image per file (unsynced tail lost/kept/cut/cut+zero/cut+garbage); after every crash the DB must reopen, a full scan must equal apply(T) for a subset T of issued batches containing every sync-acknowledged batch and committed transaction, then the program continues under all oracles. 20% of the cases are concurrent: 2..6 writers on disjoint keys (sync/non-sync mixes, merged groups), one crash, reopen: every Sync-acknowledged write survives and each client's surviving writes form a prefix-closed, batch-atomic subset. 6% of the cases use keys of several KiB (manifest and journal records that span 32 KiB blocks) with crash points biased to manifest writes. Thorough additionally enumerates every storage event index of sampled programs as the crash point. Non-trivial: a crash fired and a flush or table write had happened. Distinct by event-log hash."},
 	"C05": {"exploration", "2..5 concurrent clients issuing multi-key batches, puts, deletes, gets, snapshot reads and iterator scans over <=8 keys while flush/compaction goroutines run under the seeded scheduler; the recorded history (invoke/return stamped with the scheduler's global step counter) is checked for linearizability against a sequential map with porcupine, plus a cross-key atomicity pre-check. 40% of the transactions create an iterator half-way through a body that outgrows the write buffer (it must keep showing the transaction's earlier writes); every snapshot stays open over the client's next operation and is read a second time (snap-unstable). Non-trivial: at least two client operations overlapped. Distinct by event-log hash."},
 	"C06": {"exploration", "write-heavy programs over all comparers and tiny size knobs; on EVERY version edit persisted to the manifest (decoded at the storage seam by an independent decoder) the live table set is checked: files exist with recorded size, entries strictly increasing, recorded bounds equal first/last entry, levels>=1 sorted and disjoint in user keys, shallower entries newer than deeper ones per user key. 12% of the cases lose the manifest after a settled shutdown, run Recover (every table then sits in level 0 in file-number order) and continue with a write-heavy program, the same conditions checked on every edit. Non-trivial: a table was written. Distinct by event-log hash."},
-	"C07": {"exploration", "programs with long-lived iterators/snapshots, discarded transactions, sleeps beyond the 5 min reference-cache expiry, reopen; oracles: no Remove of a table live in the current version, no read of an already removed table, iterators stay correct, and at scheduler-level quiescence (all DB goroutines blocked) storage holds exactly live tables + live journal + live manifest. Variants: transaction iterators that outlive Commit/Discard; more than 256 version changes behind a pinned iterator (tiny write buffer, 280-420 flushes); failed flushes/compactions (faults on table files only) followed by heal + settle; K rounds of overwrite-everything + full compaction with the table bytes after round K bounded by twice those after round 1. The fault variant also fails table opens/reads and (40%) manifest writes/syncs, then heals, writes, compacts and only then settles; programs call Stats/GetProperty/SizeOf with bounds inside tables. Non-trivial: a table was written. Distinct by event-log hash."},
+	"C07": {"exploration", "programs with long-lived iterators/snapshots, discarded transactions, sleeps beyond the 5 min reference-cache expiry, reopen; oracles: no Remove of a table live in the current version, no read of an already removed table, iterators stay correct, and at scheduler-level quiescence (all DB goroutines blocked) storage holds exactly live tables + live journal + live manifest. Variants: transaction iterators that outlive Commit/Discard; more than 256 version changes behind a pinned iterator (tiny write buffer, 280-420 flushes); failed flushes/compactions (faults on table files only) followed by heal + settle; K rounds of overwrite-everything + full compaction with the table bytes after round K bounded by twice those after round 1. The fault variant also fails table opens/reads and (40%) manifest writes/syncs, then heals, writes, compacts and only then settles; programs call Stats/GetProperty/SizeOf with bounds inside tables. 5%: the program ends by laying the image out in a real directory (live tables partly under the legacy .sst name), opening it read-write through file storage, rewriting every key, compacting and settling: the directory then holds no table the manifest does not list, and the DB reopens. Non-trivial: a table was written. Distinct by event-log hash."},
 	"C08": {"fault_enumeration", "programs under 1..4 injected storage failures (create/open/read/write/short write/sync/close/remove/rename/setmeta/list x journal/table/manifest x position x window length) followed by continued use and close+reopen; failed writes are indeterminate in the model, acknowledged writes must stay visible, no read may return a value no consistent assignment explains. 25% of the cases are concurrent writers on disjoint keys under the fault plan incl. Close racing a retried transaction commit; 15% of the fault cases are bit rot at rest (bytes inside table blocks altered between close and reopen: reads fail or return original data). 15% of the fault cases build a deep tree, delete most keys and inject table-operation failures while the deletion markers are compacted downward (failed and retried compactions). 10% of the fault cases discard transactions whose tables were read (cached blocks) while removing table files fails. Thorough additionally enumerates every storage event index of sampled programs as the position of a single failure. A control run without faults attributes a mismatch to the faults. Non-trivial: at least one fault fired. Distinct by event-log hash."},
 	"C09": {"exploration", "sequential and concurrent programs with injected failures on paths holding the write lock / commit lock / waiting for compaction, and Close at a seeded point; after the (finite) fault plan is exhausted every call must return within 600 s of simulated time; a hang reports the blocked call and site. Programs include SetReadOnly in the middle of a history followed by every write entry point with every Sync/NoWriteMerge combination (persistent-error paths). 12%: Close racing a transaction commit retried under manifest faults; 10% of sequential cases: bit rot at rest, then writes and compactions (once a compaction meets the damage every call must fail at once); 15% of concurrent cases: one client calls SetReadOnly among the writers. Thorough additionally enumerates every storage event index of sampled programs as the position of a single failure. Non-trivial: a fault fired. Distinct by event-log hash."},
 	"C10": {"exploration", "2..6 concurrent writers (merge on/off, sizes straddling the merge limit, oversized batches) plus Close/transaction/CompactRange competing for the write lock; oracles from the journal bytes at the storage seam (each acknowledged write in exactly one record, disjoint increasing sequence ranges), from the API (every writer returns exactly once), porcupine linearizability with merged records atomic, and bounded liveness. Further oracles: at acknowledgement every value of the write is in a journal record; at a Sync acknowledgement those bytes are synced; the caller's batch is byte-identical after Write (no merged records left in it). 15%: one client calls SetReadOnly among the writers, half of the time while a flush is failing and being retried. 12%: journal write/sync failures among the writers. Non-trivial: two writers overlapped. Distinct by event-log hash."},
@@ -44,6 +44,8 @@ func componentsFor(prop string) map[string]interface{} {
 	switch prop {
 	case "C18":
 		m["not_simulated"] = []string{"scenario ro-fs (1 case in 7): leveldb/storage file_storage.go runs for real against a scratch directory of the real file system (it has no seam below it); the directory is compared entry by entry before and after a read-only open. Scheduling of the DB's goroutines is still the simulator's."}
+	case "C07":
+		m["not_simulated"] = []string{"operation fsrw (5% of the cases, at the end of the program): leveldb/storage file_storage.go runs for real against a scratch directory of the real file system holding the settled image, with live tables under the legacy .sst name; the directory is compared with the manifest after rewrite + CompactRange + settling, and after a reopen."}
 	case "C12", "C13":
 		m["note"] = "component level: journal / table reader and writer run for real over in-memory byte streams; there are no goroutines, so the scheduler takes no decisions and the explored space is inputs x damage positions"
 	}
